@@ -197,7 +197,16 @@ Print Assumptions C20_fail_delay.
    - console_init_func -> read only inside the pinned console-frame block of display_console (fixed)
    - app               -> the wrapped application: outcome OApp
    C20_gate and the other sweeps quantify over all atoms, hence over every combination of the four
-   flags that are dimensions.  What each switch rules out: *)
+   flags that are dimensions.
+   Per-instance state (followed in the code at this commit): trusted_hosts (a fresh list), frames (a
+   fresh dict), _failed_pin_auth (a fresh multiprocessing.Value, so the counter is per
+   DebuggedApplication instance; it is shared only with processes forked from that instance) and
+   secret (gen_salt) are all created in __init__, which is statement-pinned; the model state (counter,
+   frames) and configuration (c_trusted, c_secret) are those of ONE instance.  The PIN and the cookie
+   name are derived from the wrapped application and the machine, so two instances around the same
+   application share them by design.  That configuring or using one instance does not open another is
+   checked on real instances by the harness (instance-isolation stage).
+   What each switch rules out: *)
 Theorem C20_config : forall r count,
   (a_evalex r = false -> match fst (step r count) with OEval | OConsole _ => False | _ => True end) /\
   (a_console_path_set r = false -> match fst (step r count) with OConsole _ => False | _ => True end) /\
